@@ -228,6 +228,16 @@ def cases():
             "class RD extends Base { public constructor() -> RD = default; public function peek() -> int { return guarded(); } }"),
            ("private-constructor", "class PC { private constructor() -> PC = default; }\nfunction mk() -> void { PC p = new PC(); }",
             "class PC { public constructor() -> PC = default; }\nfunction mk() -> void { PC p = new PC(); }"),
+           ("private-base-constructor-implicit-super", "class PB { private constructor() -> PB { return this; } public constructor(int a) -> PB { return this; } }\nclass PD extends PB { public constructor() -> PD { return this; } }",
+            "class PB { protected constructor() -> PB { return this; } public constructor(int a) -> PB { return this; } }\nclass PD extends PB { public constructor() -> PD { return this; } }"),
+           ("private-base-constructor-explicit-super", "class PB { private constructor() -> PB { return this; } public constructor(int a) -> PB { return this; } }\nclass PD extends PB { public constructor() -> PD { super(); return this; } }",
+            "class PB { public constructor() -> PB { return this; } public constructor(int a) -> PB { return this; } }\nclass PD extends PB { public constructor() -> PD { super(); return this; } }"),
+           ("private-base-constructor-explicit-super-args", "class PB { public constructor() -> PB { return this; } private constructor(int a) -> PB { return this; } }\nclass PD extends PB { public constructor() -> PD { super(1); return this; } }",
+            "class PB { public constructor() -> PB { return this; } protected constructor(int a) -> PB { return this; } }\nclass PD extends PB { public constructor() -> PD { super(1); return this; } }"),
+           ("no-parameterless-base-constructor-implicit-super", "class PB { public constructor(int a) -> PB { return this; } }\nclass PD extends PB { public constructor() -> PD { return this; } }",
+            "class PB { public constructor(int a) -> PB { return this; } }\nclass PD extends PB { public constructor() -> PD { super(1); return this; } }"),
+           ("protected-constructor-from-outside", "class PP { protected constructor() -> PP = default; }\nfunction mk() -> void { PP p = new PP(); }",
+            "class PP { protected constructor() -> PP = default; }\nclass PQ extends PP { public constructor() -> PQ { super(); return this; } }\nfunction mk() -> void { PQ p = new PQ(); }"),
            ("final-field-assigned-in-method", "class RH { public final int ff = 1; public constructor() -> RH = default; public function set() -> void { this.ff = 2; } }",
             "class RH { public int ff = 1; public constructor() -> RH = default; public function set() -> void { this.ff = 2; } }"),
            ("final-field-assigned-bare-in-method", "class RH { public final int ff = 1; public constructor() -> RH = default; public function set() -> void { ff = 2; } }",
